@@ -247,9 +247,13 @@ impl Report {
         for (k, v) in o.hooks {
             *self.hooks.entry(k).or_insert(0) += v;
         }
+        // the final count sorts a copy (see `to_json`); here only compact when the vector has grown large
         self.distinct.extend(o.distinct);
-        self.distinct.sort_unstable();
-        self.distinct.dedup();
+        if self.distinct.len() > self.distinct_compact_at.max(1 << 20) {
+            self.distinct.sort_unstable();
+            self.distinct.dedup();
+            self.distinct_compact_at = 2 * self.distinct.len();
+        }
         for s in o.samples {
             if self.samples.len() < MAX_SAMPLES {
                 self.samples.push(s);
